@@ -1291,6 +1291,7 @@ func runC13(c *Ctx) {
 				return
 			}
 			e.runSymHist(&sc)
+			e.checkToolArgv(&sc)
 			c.Res.Evaluations++
 			return
 		}
